@@ -32,14 +32,17 @@ RULE = ("op lines come from one seeded PRNG: valid signatures made by the real s
         "coefficient for the bad member; non-trivial = the implementation did not refuse the line at its first check")
 TRUSTED = [
     "Model/C03/*.lean is a hand transcription of ssa.py / bip340_nonce.py / commit_nonce.py, tied by correspondence only",
-    "C01 proves Lawful (opsSub K) (EC.ops C on the reduced pairs of the n-torsion, lift_x filtered); the E2E theorems about the "
-    "executed EC.ops C (T2-T4) carry the named cofactor-one hypothesis hcof (not proved for secp256k1); T1 needs none",
+    "C01 proves Lawful (opsSub K) (EC.ops C on the reduced pairs of the n-torsion, lift_x filtered); the generic E2E theorems about the "
+    "executed EC.ops C (T2-T4, `_cofactor_one`) carry the explicit hypothesis hcof; for secp256k1 hcof is PROVED (Btc.E2E.secpCofactorOne) and the "
+    "`_secp256k1` theorems carry no hypothesis about the curve; T1 and sign totality need none on any curve with CurveOk and p = 3 mod 4",
+    "sign totality (sign_total*) is conditional on two facts about the hash alone: a nonce candidate in 1..n-1 within the budget, a non-zero challenge",
     "retry loops of nonce / tweak derivation are modelled with fuel 10000 (error class `fuel` never observed)",
     "secrets.randbelow is replaced by a stub replaying listed coefficients inside the harness process, for ssa.batch lines only",
-    "forgery resistance and the 1/(n-1) batch soundness error are properties of the scheme, not proved",
+    "forgery resistance is not addressed; the batch soundness error is proved only as a count (at most one of the n-1 values of one coefficient passes)",
 ]
-ASSUMPTIONS = ["hcof: every point of secp256k1 has order dividing n (cofactor one) — hypothesis of the _secp256k1 forms of T2-T4; "
-               "primality of p and n, Δ ≠ 0 and the rest of CurveOk are proved"]
+ASSUMPTIONS = ["none about secp256k1 (primality of p and n, Δ ≠ 0, CurveOk, cofactor one: all proved); for another curve the generic `_cofactor_one` "
+               "theorems take hcof (every point has order dividing n) as an explicit hypothesis",
+               "sign_total: the nonce loop finds a candidate in 1..n-1 within its budget and the challenge is not 0 mod n (facts about the hash function)"]
 
 P = secp256k1.p
 N = secp256k1.n
